@@ -84,7 +84,7 @@ type Sim struct {
 	// outputs
 	Races        []string
 	SiteHits     []uint32
-	PoolStats   struct{ Get, Recycled, CrossTask, Fresh, Dropped, DoublePut int }
+	PoolStats    struct{ Get, Recycled, CrossTask, Fresh, Dropped, DoublePut int }
 	putBy        map[any]int
 	InLockYields int
 }
@@ -889,6 +889,21 @@ func R[T any](p *T, site int) {
 func W[T any](p *T, site int) {
 	if s := S; s != nil {
 		s.access(uintptr(unsafe.Pointer(p)), site, true, false)
+	}
+}
+
+// RS / WS record a read / write of the elements of slice s (keyed by the start
+// of the window s describes: the slices of the instrumented code all start at
+// index 0 of their backing array).
+func RS[T any](s []T, site int) {
+	if sim := S; sim != nil && cap(s) > 0 {
+		sim.access(uintptr(unsafe.Pointer(unsafe.SliceData(s[:cap(s)])))|1, site, false, false)
+	}
+}
+
+func WS[T any](s []T, site int) {
+	if sim := S; sim != nil && cap(s) > 0 {
+		sim.access(uintptr(unsafe.Pointer(unsafe.SliceData(s[:cap(s)])))|1, site, true, false)
 	}
 }
 
